@@ -129,7 +129,9 @@ class Divider(FormulaStep):
         """
         val2 = eval_stack.pop()
         val1 = eval_stack.pop()
-        res = val1 / val2
+        # A zero divisor has no defined quotient: propagate NaN (-> a `None` sample)
+        # instead of raising, which would drop the sample for this timestamp.
+        res = val1 / val2 if val2 != 0 else math.nan
         eval_stack.append(res)
 
 
